@@ -116,6 +116,7 @@ def run_tlc(
     cpus: int | None = None,
     cfg_name: str | None = None,
     extra: list[str] | None = None,
+    stack: str | None = None,
 ) -> TlcResult:
     cfg_name = cfg_name or f"{module}.cfg"
     (workdir / cfg_name).write_text(cfg)
@@ -123,6 +124,8 @@ def run_tlc(
     if meta.exists():
         shutil.rmtree(meta)
     java = ["java", "-XX:+UseParallelGC", f"-Xmx{heap}", "-cp", CP]
+    if stack:
+        java.append(f"-Xss{stack}")     # deeply nested (non-tail) recursive operators
     if cpus:
         java.append(f"-XX:ActiveProcessorCount={cpus}")
     if dfs_queue:
